@@ -8,6 +8,7 @@
    stateful (Model/Joining.chain_fin: a passing event numbered at or below the last one forwarded is dropped) and the
    clause holds under the world hypotheses of C07_seamless_num alone: C07_seamless_num_final.  No agreement
    hypothesis between the files and the hub's LIB (files_final) is needed. *)
+From Coq Require Import Sorted.
 From BV Require Import Base.Prelude Model.Block Model.ForkDB Model.Forkable Model.ForkableLookups
   Model.Burst Model.Hub Model.CursorResolver Model.Joining
   Spec.Consumer Spec.Universe Check.Burst_Check Check.C07_Check Spec.C06_Spec Spec.C07_Spec Spec.C09_Spec
@@ -42,21 +43,43 @@ Definition C07_seamless_num_final : Prop :=
        map eblk (fst res) = from_num start merged \/
        exists hi, final_lib c w <= hi /\ from_num start (map eblk (fst res)) = seg_num start hi canon).
 
-(* Final blocks only FROM A CURSOR: c07_prop checks `final_fold (Some (id of the cursor block))` - the first delivered
-   block extends the cursor block.  This is FALSE in the model (and, by correspondence, in the code as it is): the
-   filter's memory starts empty, so when the cursor is ahead of the hub's LIB (the consumer got its last final block from
-   merged files that the lagging hub does not yet consider final) and the hub serves the cursor itself, the hub later
-   announces as Irreversible blocks at or below the cursor block.  Every world hypothesis of the C07 theorems holds; the
-   cursor is on a final canonical block (IsOnFinalBlock). *)
-Definition C07_final_cursor_refuted : Prop :=
-  exists (U : list block) (c : jcfg) (w : world) (ps : list (N * N)) (merged_end : N) (canon forked : list block) (cu : cursor) (L : block),
-    wf_b U = true /\ lib_ok_b LNone U = true /\
-    hub_of_universe U c w /\
-    chain_ok canon /\ incl canon U /\
-    eventual_tip c w canon /\
-    j_mode c = 1 /\ j_cursor c = Some cu /\ j_filter c = 1 /\ j_stop c = 0 /\ 0 < j_bundle c /\
-    on_final_block cu = true /\ In L canon /\ bref L = cu_blk cu /\ bref L = cu_lib cu /\
-    let res := stream_run c w ps merged_end (filter (fun b => bnum b <? merged_end) canon) forked in
-    snd res = JNil /\ final_fold (Some (ri (cu_blk cu))) (fst res) = false /\
-    (* blocks at or below the cursor block are delivered *)
-    exists e, In e (fst res) /\ bnum (eblk e) <= rn (cu_blk cu).
+(* ------------------------------------------------------------------ what the filter's memory guarantees, unconditionally *)
+
+(* Final blocks only, EVERY start mode, world, schedule, stop block (no hypothesis): the block numbers of the delivered
+   events strictly increase - each final block at most once, never one at or below a block already delivered - and a
+   stream that resumes from a cursor (cursor-is-start) delivers nothing numbered at or below its cursor block (the two
+   fixes "each final block once" and "none at or below the cursor"). *)
+Definition C07_final_increasing : Prop :=
+  forall (c : jcfg) (w : world) (ps : list (N * N)) (merged_end : N) (merged forked : list block),
+    j_filter c = 1 ->
+    let res := stream_run c w ps merged_end merged forked in
+    StronglySorted (fun a b => bnum (eblk a) < bnum (eblk b)) (fst res) /\
+    Forall (fun e => filter_pass c (estep e) = true) (fst res) /\
+    (forall cu, j_mode c = 1 -> j_cursor c = Some cu -> Forall (fun e => rn (cu_blk cu) < bnum (eblk e)) (fst res)).
+
+(* NOT PROVED: the final-blocks-only clause in cursor mode.  The cursor is on a final canonical block L
+   (IsOnFinalBlock: cursor block = cursor LIB block = L); c07_prop checks final_fold (Some (id of L)).  With the memory
+   starting at L's number no counterexample is known (the witness of c07_final_cursor_refuted is repaired), and the
+   argument of C07_seamless_num_final carries over with the file blocks `rest` after L in place of the delivery from
+   start and the memory Some (bnum L) in place of None; what is missing is (1) that generalisation of
+   Proofs/C07_Final.v (final_join / final_live are written for number mode: file events of file_delivery, memory None),
+   (2) the new+irreversible part of the hub's answer to a final cursor, blocks_from_cursor, in both of its paths (cursor
+   block on the hub's chain: from_cursor_fast; hub on a fork below L: the undo path, all of whose events a
+   final-blocks-only handler never sees), like burst_irr for blocks_from_num. *)
+Definition C07_seamless_cursor_final_full : Prop :=
+  forall (U : list block) (c : jcfg) (w : world) (ps : list (N * N)) (merged_end : N) (canon forked : list block)
+         (cu : cursor) (L : block) (rest : list block),
+    wf_b U = true -> lib_ok_b LNone U = true ->
+    hub_of_universe U c w ->
+    chain_ok canon -> incl canon U ->
+    let merged := filter (fun b => bnum b <? merged_end) canon in
+    eventual_tip c w canon ->
+    j_mode c = 1 -> j_cursor c = Some cu -> j_filter c = 1 ->
+    0 < j_bundle c -> Forall (fun b => bnum b < file_bound) merged ->
+    on_final_block cu = true ->
+    from_num (rn (cu_lib cu)) canon = L :: rest -> bref L = cu_lib cu -> bref L = cu_blk cu ->
+    let res := stream_run c w ps merged_end merged forked in
+    final_fold (Some (ri (cu_blk cu))) (fst res) = true /\
+    (snd res = JNil ->
+       fst res = [] \/ map eblk (fst res) = above (rn (cu_lib cu)) merged \/
+       exists hi, final_lib c w <= hi /\ map eblk (fst res) = seg_num (rn (cu_lib cu) + 1) hi canon).
